@@ -101,6 +101,13 @@ def pel_specs():
         {'t': 'UD', 'comp': 0x2C00, 'sub': 73, 'ver': 2, 'payload': '00070008EA088403'},
         {'t': 'UD', 'comp': 0x2C00, 'sub': 72, 'ver': 1, 'payload': '0102030405060708090a'},
         {'t': 'ED', 'creator': 'M', 'comp': 0x2C00, 'sub': 73, 'ver': 1, 'payload': '00080009EA088403'}]}
+    # SRCs that declare fewer than nine valid words and go to a parser that shows the words it is handed (the shipped
+    # hardware-diagnostics parser prints words 6..8): the words beyond the count are zeroes, whatever was decoded before
+    specs['o_e5_wc5'] = {'creator': 'O', 'eid': 0x50000028, 'sections': [
+        {'t': 'PS', 'ascii': 'BD8DE511'.ljust(32), 'wc': 5, 'words': [0x020000E0, 0x2A0B0003, 0x00000030, 0x00C00004, 0x20DA0020, 0x0007BEEF, 0x03050001, 0x12345678]}]}
+    specs['o_e5_wc2'] = {'creator': 'O', 'eid': 0x50000029, 'sections': [
+        {'t': 'PS', 'ascii': 'BD8DE512'.ljust(32), 'wc': 2, 'words': [0x020000E0, 0x11111111, 0x22222222, 0x33333333, 0x44444444, 0x55555555, 0x66666666, 0x77777777]},
+        {'t': 'SS', 'ascii': 'BD8DE513'.ljust(32), 'wc': 7}]}
     # pairs that share one component of a parser-cache key but differ in another (creator vs component vs code type)
     specs['o_bc_e5'] = {'creator': 'O', 'eid': 0x50000011, 'sections': [{'t': 'PS', 'ascii': 'BC8AE510'.ljust(32)}]}
     specs['o_bd_2a'] = {'creator': 'O', 'eid': 0x50000012, 'sections': [{'t': 'PS', 'ascii': 'BD2A1234'.ljust(32), 'callouts': [mru2]},
